@@ -85,23 +85,64 @@ def parseMetric? : String → Option Metric
   | "masym" => some .masym | "relloss" => some .relloss
   | _ => none
 
-def handle (toks : List String) : String :=
+/-- history of a metric object before the final call (the final options are the ones on the line, `old` the ones it
+was constructed with): fresh | setp | attr | clone (set_params, then clone) | reuse (an earlier call with y_true and
+y_pred exchanged) -/
+def history (kind : String) (new : ClsOpts) (yt yp : Mat) (kw : Kw) : Option (List ObjOp) :=
+  if kind == "fresh" then some [.call yt yp kw]
+  else if kind == "setp" then some [.setParams new, .call yt yp kw]
+  else if kind == "attr" then some [.setAttr new, .call yt yp kw]
+  else if kind == "clone" then some [.setParams new, .clone, .call yt yp kw]
+  else if kind == "reuse" then some [.setParams new, .call yp yt kw, .call yt yp kw]
+  else none
+
+def parseOld? (toks : List String) : Option ClsOpts :=
   match toks with
-  | [via, metric, yt, yp, yb, ytr, sp, ix, hw, mo, sym, sqrt, thr, l, r, rlf] =>
+  | [sym, sqrt, sp, thr, l, r, rlf] => do
+    let sym ← parseBool? sym; let sqrt ← parseBool? sqrt; let sp ← parseInt? sp; let thr ← parseRat? thr
+    let l ← parseEF? l; let r ← parseEF? r; let rlf ← parseBase? rlf
+    pure { sym, sqrt, sp, thr, l, r, rlf }
+  | _ => none
+
+def handleCore (via metric yt yp yb ytr sp ix hw mo sym sqrt thr l r rlf : String) (hist : Option (String × List String)) :
+    String :=
     match parseMetric? metric, parseMat? yt, parseMat? yp, parseOMat? yb, parseTrain? ytr, parseInt? sp,
           parseIx? ix, parseHw? hw with
     | some metric, some yt, some yp, some yb, some ytr, some sp, some ix, some hw =>
       match parseMO? mo, parseBool? sym, parseBool? sqrt, parseRat? thr, parseEF? l, parseEF? r, parseBase? rlf with
       | some mo, some sym, some sqrt, some thr, some l, some r, some rlf =>
         let a : Args := { yt, yp, yb, ytr, sp, ix, hw, mo, sym, sqrt, thr, l, r, rlf }
-        if via == "f" then showRes (call EPS metric a)
+        if via == "f" then
+          match hist with
+          | none => showRes (call EPS metric a)
+          | some _ => "bad-op"
         else if via == "c" then
-          -- Cls(**options)(y_true, y_pred, **kwargs) versus the function called with the same options
+          -- the metric object after its history, called with **kwargs, versus the function with the same (final) options
           let kw : Kw := { yb, ytr, ix, hw, mo }
-          s!"cls={showRes (classCall EPS metric { sym, sqrt, sp, thr, l, r, rlf } yt yp kw)} fn={showRes (call EPS metric a)}"
+          let new : ClsOpts := { sym, sqrt, sp, thr, l, r, rlf }
+          let res : Option (Except Err Out) :=
+            match hist with
+            | none => some (classCall EPS metric new yt yp kw)
+            | some (kind, oldToks) =>
+              match parseOld? oldToks, history kind new yt yp kw with
+              | some old, some ops =>
+                -- a fresh object is constructed with its final options
+                let start : Obj := { c := metric, opts := if kind == "fresh" then new else old }
+                (Obj.run EPS start ops).getLast?
+              | _, _ => none
+          match res with
+          | some r => s!"cls={showRes r} fn={showRes (call EPS metric a)}"
+          | none => "bad-op"
         else "bad-op"
       | _, _, _, _, _, _, _ => "bad-op"
     | _, _, _, _, _, _, _, _ => "bad-op"
+
+def handle (toks : List String) : String :=
+  match toks with
+  | [via, metric, yt, yp, yb, ytr, sp, ix, hw, mo, sym, sqrt, thr, l, r, rlf] =>
+    handleCore via metric yt yp yb ytr sp ix hw mo sym sqrt thr l r rlf none
+  | via :: metric :: yt :: yp :: yb :: ytr :: sp :: ix :: hw :: mo :: sym :: sqrt :: thr :: l :: r :: rlf :: kind :: old =>
+    handleCore via metric yt yp yb ytr sp ix hw mo sym sqrt thr l r rlf (some (kind, old))
   | _ => "bad-op"
 
 end SkVerif.Drv.C06
